@@ -222,7 +222,7 @@ fn shaped(rng: &mut Rng) -> Vec<(String, Prog)> {
 
 pub fn run(r: &mut Report) {
     let mut rng = Rng::new(r.seed ^ 0xC09);
-    let per_family = if r.quick() { 6 } else { 40 };
+    let per_family = if r.quick() { 12 } else { 40 };
     let cap: u64 = if r.quick() { 6_000 } else { 60_000 };
     let mut items: Vec<(String, Prog, u64)> = vec![];
     for (n, p) in shaped(&mut rng) {
